@@ -173,3 +173,56 @@ func init() {
 		panic(unmodelled{"ristretto.Cache." + name})
 	}
 }
+
+// (*jose.JSONWebKey).Public / Valid for keys of the go-jose model (intr_x_agentF2.go): the public half of an
+// RSA / ECDSA private key, the key itself when it already is public, the zero JWK for a symmetric key.
+func init() {
+	jwkT := func(i *interpreter) types.Type { return i.namedType(josePkg, "JSONWebKey") }
+	structOf := func(v value) structure {
+		if s, ok := v.(structure); ok {
+			return s
+		}
+		if s, ok := derefStruct(v); ok {
+			return s
+		}
+		panic(unmodelled{"JSONWebKey method on a nil key"})
+	}
+	public := func(fr *frame, a []value) value {
+		i := fr.i
+		t := jwkT(i)
+		s := structOf(a[0])
+		out := append(structure(nil), s...)
+		ki := fieldIndex(t, "Key")
+		key, _ := s[ki].(iface)
+		switch typeName(key.t) {
+		case "*crypto/rsa.PrivateKey":
+			ps, _ := derefStruct(key.v)
+			pt := i.namedType("crypto/rsa", "PrivateKey")
+			out[ki] = iface{types.NewPointer(i.namedType("crypto/rsa", "PublicKey")), &ps[fieldIndex(pt, "PublicKey")]}
+		case "*crypto/ecdsa.PrivateKey":
+			ps, _ := derefStruct(key.v)
+			pt := i.namedType("crypto/ecdsa", "PrivateKey")
+			out[ki] = iface{types.NewPointer(i.namedType("crypto/ecdsa", "PublicKey")), &ps[fieldIndex(pt, "PublicKey")]}
+		case "*crypto/rsa.PublicKey", "*crypto/ecdsa.PublicKey":
+		default:
+			return zero(t) // symmetric or unknown: "returning invalid key"
+		}
+		return out
+	}
+	valid := func(fr *frame, a []value) value {
+		s := structOf(a[0])
+		key, _ := s[fieldIndex(jwkT(fr.i), "Key")].(iface)
+		switch typeName(key.t) {
+		case "*crypto/rsa.PrivateKey", "*crypto/ecdsa.PrivateKey", "*crypto/rsa.PublicKey", "*crypto/ecdsa.PublicKey":
+			return key.v != nil
+		case "[]byte":
+			b, _ := key.v.([]value)
+			return len(b) > 0
+		}
+		return false
+	}
+	reg("(*"+josePkg+".JSONWebKey).Public", public)
+	reg("("+josePkg+".JSONWebKey).Public", public)
+	reg("(*"+josePkg+".JSONWebKey).Valid", valid)
+	reg("("+josePkg+".JSONWebKey).Valid", valid)
+}
